@@ -38,36 +38,155 @@ func walkWithConds(p *Path, f func(e *Event, conds []Cond, inRep []*Event)) {
 	rec(p.Events, nil, 0, nil)
 }
 
-// condHolds: is there a condition in force that establishes `x op y` (op one of < <= > >=)?
-func condHolds(conds []Cond, x *Val, op string, y *Val) bool {
-	ax, ay := affOf(x), affOf(y)
-	flip := map[string]string{"<": ">", ">": "<", "<=": ">=", ">=": "<="}
-	neg := map[string]string{"<": ">=", ">=": "<", ">": "<=", "<=": ">"}
-	implies := func(have, want string) bool {
-		if have == want {
-			return true
-		}
-		return (have == "<" && want == "<=") || (have == ">" && want == ">=")
-	}
+// intFact is an integer inequality  G >= Lo  and/or  G <= Hi  over an affine expression G.
+type intFact struct {
+	G      *Affine
+	Lo, Hi *int64
+}
+
+func i64(x int64) *int64 { return &x }
+
+// factsOf turns the branch conditions in force (and the monotonicity of loop variables occurring in `about`) into integer facts.
+func factsOf(conds []Cond, about ...*Val) []intFact {
+	var fs []intFact
 	for _, c := range conds {
 		v := c.V
 		if v.Op != "binop" {
 			continue
 		}
-		o := v.Name
-		if _, ok := flip[o]; !ok {
+		op := v.Name
+		neg := map[string]string{"<": ">=", ">=": "<", ">": "<=", "<=": ">", "==": "!=", "!=": "=="}
+		if _, ok := neg[op]; !ok {
 			continue
 		}
 		if !c.Taken {
-			o = neg[o]
+			op = neg[op]
 		}
-		l, r := affOf(v.Args[0]), affOf(v.Args[1])
-		if l.Equal(ax) && r.Equal(ay) && implies(o, op) {
+		g := affOf(v.Args[0]).Add(affOf(v.Args[1]), -1) // l - r
+		if g.Top {
+			continue
+		}
+		switch op {
+		case "<":
+			fs = append(fs, intFact{G: g, Hi: i64(-1)})
+		case "<=":
+			fs = append(fs, intFact{G: g, Hi: i64(0)})
+		case ">":
+			fs = append(fs, intFact{G: g, Lo: i64(1)})
+		case ">=":
+			fs = append(fs, intFact{G: g, Lo: i64(0)})
+		case "==":
+			fs = append(fs, intFact{G: g, Lo: i64(0), Hi: i64(0)})
+		}
+	}
+	seen := map[string]bool{}
+	for _, a := range about {
+		if a == nil {
+			continue
+		}
+		a.Walk(func(x *Val) bool {
+			if x.Op == "loopvar" && len(x.Args) == 1 && !seen[x.Key()] {
+				seen[x.Key()] = true
+				if step, ok := x.Aux.(int64); ok && step != 0 {
+					g := affOf(x).Add(affOf(x.Args[0]), -1) // lv - init
+					if step > 0 {
+						fs = append(fs, intFact{G: g, Lo: i64(0)})
+					} else {
+						fs = append(fs, intFact{G: g, Hi: i64(0)})
+					}
+				}
+			}
+			if x.Op == "loopout" && len(x.Args) >= 1 && !seen[x.Key()] {
+				seen[x.Key()] = true
+				if step, ok := x.Aux.(int64); ok && step != 0 {
+					g := affOf(x).Add(affOf(x.Args[0]), -1) // out - init
+					if step > 0 {
+						fs = append(fs, intFact{G: g, Lo: i64(0)})
+					} else {
+						fs = append(fs, intFact{G: g, Hi: i64(0)})
+					}
+					if len(x.Args) == 2 && (step == 1 || step == -1) {
+						// unit step towards the bound: the exit value does not pass the bound when the initial value does not
+						d := affOf(x.Args[0]).Add(affOf(x.Args[1]), -1) // init - bound
+						if k, isC := d.IsConst(); isC {
+							g2 := affOf(x).Add(affOf(x.Args[1]), -1) // out - bound
+							if step < 0 && k >= 0 {
+								fs = append(fs, intFact{G: g2, Lo: i64(0)})
+							}
+							if step > 0 && k <= 0 {
+								fs = append(fs, intFact{G: g2, Hi: i64(0)})
+							}
+						}
+					}
+				}
+			}
+			if (x.Op == "len" || x.Op == "cap" || x.Op == "buflen") && !seen[x.Key()] {
+				seen[x.Key()] = true
+				fs = append(fs, intFact{G: affOf(x), Lo: i64(0)})
+			}
 			return true
+		})
+	}
+	return fs
+}
+
+// boundsOf derives integer bounds of the affine expression d from single facts: d = ±G + k.
+func boundsOf(d *Affine, fs []intFact) (lo, hi *int64) {
+	if d.Top {
+		return nil, nil
+	}
+	if k, ok := d.IsConst(); ok {
+		return i64(k), i64(k)
+	}
+	upd := func(l, h *int64) {
+		if l != nil && (lo == nil || *l > *lo) {
+			lo = l
 		}
-		if l.Equal(ay) && r.Equal(ax) && implies(flip[o], op) {
-			return true
+		if h != nil && (hi == nil || *h < *hi) {
+			hi = h
 		}
+	}
+	for _, f := range fs {
+		if k, ok := d.Add(f.G, -1).IsConst(); ok { // d = G + k
+			var l, h *int64
+			if f.Lo != nil {
+				l = i64(*f.Lo + k)
+			}
+			if f.Hi != nil {
+				h = i64(*f.Hi + k)
+			}
+			upd(l, h)
+		}
+		if k, ok := d.Add(f.G, 1).IsConst(); ok { // d = -G + k
+			var l, h *int64
+			if f.Hi != nil {
+				l = i64(-*f.Hi + k)
+			}
+			if f.Lo != nil {
+				h = i64(-*f.Lo + k)
+			}
+			upd(l, h)
+		}
+	}
+	return
+}
+
+// condHolds: do the conditions in force establish `x op y` (op one of < <= > >=) over the integers?
+func condHolds(conds []Cond, x *Val, op string, y *Val) bool {
+	d := affOf(x).Add(affOf(y), -1)
+	if d.Top {
+		return false
+	}
+	lo, hi := boundsOf(d, factsOf(conds, x, y))
+	switch op {
+	case "<":
+		return hi != nil && *hi <= -1
+	case "<=":
+		return hi != nil && *hi <= 0
+	case ">":
+		return lo != nil && *lo >= 1
+	case ">=":
+		return lo != nil && *lo >= 0
 	}
 	return false
 }
@@ -141,7 +260,8 @@ func nonNegative(v *Val, conds []Cond) bool {
 			return nonNegative(v.Args[0], conds) && nonNegative(v.Args[1], conds)
 		}
 	}
-	return condHolds(conds, mkInt(0), "<=", v)
+	lo, _ := boundsOf(affOf(v), factsOf(conds, v))
+	return lo != nil && *lo >= 0
 }
 
 func intBits2(t types.Type) (int, bool) {
@@ -511,9 +631,10 @@ func (s *safety) checkNoPanic(rep *Report, prefix string, key string, fn *ssa.Fu
 				// only the registry's read lock is expected on codec paths
 				rep.Ob(prefix+"4-locks", key+":"+e.Mode, e.Mode == "RLock" || e.Mode == "RUnlock", epos, "codec path takes "+e.Mode+" on "+e.Recv.Pretty())
 			case EvRep:
-				bounded := e.Bounded == "counted" || e.Bounded == "range"
+				bounded := e.Bounded == "counted" || e.Bounded == "range" || e.Bounded == "counted-down"
 				if decode {
-					// each completed iteration must consume at least one byte (so the trip count is bounded by the input size)
+					// the trip count must be bounded by the input size: either the count does not derive from
+					// wire data at all (a constant or parameter), or each completed iteration consumes at least one byte
 					minb := int64(-1)
 					for _, arm := range e.Iter {
 						b := s.iterationMinBytes(arm)
@@ -521,12 +642,13 @@ func (s *safety) checkNoPanic(rep *Report, prefix string, key string, fn *ssa.Fu
 							minb = b
 						}
 					}
-					rep.Ob(prefix+"2-loop-consumes", key+":loop@"+site, minb >= 1, epos,
-						fmt.Sprintf("a loop iteration can complete without consuming input (min %d bytes): with a hostile count the loop runs independently of the input size", minb))
-					if !bounded {
-						rep.Ob(prefix+"2-loop-bounded", key+":loop@"+site, minb >= 1, epos, "loop without a recognised counter whose iterations do not all consume input")
-					} else {
+					countFromWire := e.Count.Contains(func(x *Val) bool { return x.Op == "wire" || x.Op == "unknown" || x.Op == "short" })
+					if bounded && !countFromWire {
 						rep.Ob(prefix+"2-loop-bounded", key+":loop@"+site, true, "", "")
+					} else {
+						rep.Ob(prefix+"2-loop-consumes", key+":loop@"+site, minb >= 1, epos,
+							fmt.Sprintf("a loop iteration can complete without consuming input (min %d bytes): with a hostile count the loop runs independently of the input size", minb))
+						rep.Ob(prefix+"2-loop-bounded", key+":loop@"+site, bounded || minb >= 1, epos, "loop without a recognised counter whose iterations do not all consume input")
 					}
 				} else {
 					rep.Ob(prefix+"2-loop-bounded", key+":loop@"+site, bounded, epos, "loop without a recognised bound (count "+e.Count.Pretty()+")")
